@@ -201,11 +201,15 @@ struct InLetter {
     int p;
 };
 
-static void fir_case(Ctx& ctx, bool cplx, int nh, const std::string& ck, int cj, int len, int block, int fftlen) {
+static void fir_case(Ctx& ctx, bool cplx, int nh, const std::string& ck, int cj, int len, int block, int fftlen, int sweep_nh = 16,
+                     bool big = false) {
     const Sig c = coef_letter(ck, cj, nh, cplx);
     const double cn = (double)c.norm2();
     std::vector<InLetter> ins;
-    if (nh <= 16) {
+    if (big) {
+        // very long coefficient vector / frame: the dense letter and one impulse behind input index 2^16
+        ins.push_back({"imp", std::min(65536, len - 1)});
+    } else if (nh <= sweep_nh) {
         for (int p = 0; p < len; ++p) ins.push_back({"imp", p});
     } else {
         std::set<int> ps = {0, 1, nh - 1, nh, block - 1, block, len - nh, len - 1};
@@ -213,7 +217,7 @@ static void fir_case(Ctx& ctx, bool cplx, int nh, const std::string& ck, int cj,
             if (p >= 0 && p < len) ins.push_back({"imp", p});
     }
     ins.push_back({"lcg", 0});
-    ins.push_back({"two", 0});
+    if (!big) ins.push_back({"two", 0});
     bool nontriv = false;
     for (const auto& il : ins) {
         if (len == 0 && il.kind != "lcg") continue;   // one empty input is enough
@@ -333,7 +337,8 @@ static void fir_case(Ctx& ctx, bool cplx, int nh, const std::string& ck, int cj,
         }
     }
     if (nontriv && len > 0) ctx.nontrivial();
-    ctx.note(fmt("fir %s nh<=16:%d len>=block:%d", cplx ? "complex" : "real", (int)(nh <= 16), (int)(len >= block)));
+    ctx.note(fmt("fir %s sweep:%d len>=block:%d", cplx ? "complex" : "real", (int)(nh <= sweep_nh), (int)(len >= block)));
+    if (big) ctx.note(fmt("fir big case nh=%d len=%d", nh, len));
     if (len / block >= 2) ctx.note("fft filter: >= 2 blocks (overlap carried)");
 }
 
@@ -461,9 +466,50 @@ static void xcorr_auto_case(Ctx& ctx, int n) {
     if (n >= 2) ctx.nontrivial();
 }
 
+// ------------------------------------------------------------------------------------------------ FirFilter<T>::conv (static)
+// conv(x, h) returns the nx-nh+1 "valid" samples r[i] = sum_j conj(h[j]) x[i+nh-1-j], i.e. the filter output without history.
+static void conv_case(Ctx& ctx, bool cplx, int nx, int nh) {
+    const Sig c = dense_sig(771, nh, cplx), x = dense_sig(781, nx, cplx);
+    Sig ref;
+    std::vector<double> S;
+    fir_ref(c, x, cplx, ref, S);
+    const long n = (long)nx - nh + 1;
+    Sig r;
+    r.resize((size_t)n);
+    for (long i = 0; i < n; ++i) r.re[(size_t)i] = ref.re[(size_t)(i + nh - 1)], r.im[(size_t)i] = ref.im[(size_t)(i + nh - 1)];
+    const double g = 8.0 * EPS * (double)c.norm2() * (double)x.norm2();
+    auto tol = [&](long i) { return std::max(g, (nh + 8.0) * EPS * S[(size_t)(i + nh - 1)]); };
+    const char* site = cplx ? "FirFilterC::conv" : "FirFilterR::conv";
+    try {
+        Cmp q;
+        long got;
+        if (!cplx) {
+            arr_real y = dsplib::FirFilterR::conv(to_real(x), to_real(c));
+            got = y.size();
+            if (got == n) q = compare(n, [&](long i) { return y[(int)i]; }, [&](long) { return 0.0; }, r, tol);
+        } else {
+            arr_cmplx y = dsplib::FirFilterC::conv(to_cmplx(x), to_cmplx(c));
+            got = y.size();
+            if (got == n) q = compare(n, [&](long i) { return y[(int)i].re; }, [&](long i) { return y[(int)i].im; }, r, tol);
+        }
+        if (got != n) {
+            ctx.fail(site, fmt("output length %ld", got), fmt("nx-nh+1 = %ld", n), P().kv("what", "size"));
+            return;
+        }
+        ctx.worst("conv err/tol", q.worst_ratio);
+        if (q.bad >= 0)
+            ctx.fail(site, q.nonfinite ? fmt("non-finite r[%ld]", q.bad) : fmt("|r[%ld] - sum| = %.3g", q.bad, q.err_at), fmt("<= %.3g", q.tol_at),
+                     P().kv("i", q.bad).kv("what", "value"));
+    } catch (const std::exception& e) {
+        ctx.fail(site, fmt("exception: %s", e.what()), "no exception", P().kv("what", "throw"));
+    }
+    ctx.nontrivial();
+}
+
 // ------------------------------------------------------------------------------------------------ MAFilter
-static void ma_case(Ctx& ctx, int n, int len) {
-    const char* kinds[] = {"imp0", "impn", "lcg", "two", "const", "burst"};
+static void ma_case(Ctx& ctx, int n, int len, bool big = false) {
+    std::vector<const char*> kinds = {"imp0", "impn", "lcg", "two", "const", "burst"};
+    if (big) kinds = {"lcg", "burst"};
     for (int cplx = 0; cplx < 2; ++cplx) {
         for (const char* kd : kinds) {
             std::string k = kd;
@@ -553,7 +599,7 @@ static void ma_case(Ctx& ctx, int n, int len) {
 // One FirFilter object, several calls with CHANGING frame lengths (including empty frames): every call must return exactly as
 // many samples as it was given and these must equal the defining sum over the whole stream fed so far.  One fixed stream per
 // input letter; every sequence feeds a prefix of it, so the long-double sums are computed once (the filter is causal).
-static void firseq_case(Ctx& ctx, bool cplx, int nh) {
+static void firseq_case(Ctx& ctx, bool cplx, int nh, int ncalls = 3) {
     const Sig c = coef_letter("dense", 0, nh, cplx);
     const double cn = (double)c.norm2();
     std::set<int> vs = {0, 1, 2, nh - 1, nh, nh + 1, 30, 64};
@@ -561,7 +607,13 @@ static void firseq_case(Ctx& ctx, bool cplx, int nh) {
     std::vector<std::vector<int>> seqs;
     for (int a : vals)
         for (int b : vals)
-            for (int d : vals) seqs.push_back({a, b, d});
+            for (int d : vals) {
+                if (ncalls >= 4) {
+                    for (int e : vals) seqs.push_back({a, b, d, e});
+                } else {
+                    seqs.push_back({a, b, d});
+                }
+            }
     // a few longer histories: alternating lengths and an empty frame after non-empty ones
     seqs.push_back({nh, nh, 0, nh, 1});
     seqs.push_back({1, 2, 1, 2, 1, 2});
@@ -662,13 +714,18 @@ static void fftseq_case(Ctx& ctx, bool cplx, int nh, int block, int fftlen, bool
     const double cn = (double)c.norm2();
     // call sequences
     std::vector<std::vector<int>> seqs;
-    std::vector<int> vals = full ? std::vector<int>{1, block - 1, block, block + 1, 2 * block, 2 * block + 3}
-                                 : std::vector<int>{1, block - 1, block, block + 1};
+    // full: 9 frame lengths (729 sequences), otherwise 6 (216 sequences)
+    std::vector<int> vals = full ? std::vector<int>{1, 2, block - 1, block, block + 1, 2 * block - 1, 2 * block, 2 * block + 3, 3 * block}
+                                 : std::vector<int>{1, block - 1, block, block + 1, 2 * block, 2 * block + 3};
+    {
+        std::set<int> u(vals.begin(), vals.end());
+        vals.assign(u.begin(), u.end());
+    }
     for (int a : vals)
         for (int b : vals)
             for (int d : vals) seqs.push_back({a, b, d});
     for (int r = 1; r <= std::min(block - 1, 8); ++r) seqs.push_back({r, block, block, 2 * block - r});
-    const int maxlen = std::max(3 * (2 * block + 3), 4 * block);
+    const int maxlen = std::max(3 * std::max(2 * block + 3, 3 * block), 4 * block);
     const char* site = "FftFilter::process";
     struct Stream {
         std::string kind;
@@ -800,8 +857,14 @@ int main(int argc, char** argv) {
     // ---- FirFilter / FftFilter
     if (ctx.wants("fir")) {
         std::vector<int> nhs;
-        for (int nh = 2; nh <= 64; ++nh) nhs.push_back(nh);
-        for (int nh : {100, 127, 128, 129, 255, 256, 257, 512, 1024}) nhs.push_back(nh);
+        const int NHX = T ? 128 : 64;     // every nh up to NHX with every unit-impulse coefficient vector
+        const int SWEEP = T ? 32 : 16;    // every input length 0..3*block+2 and every impulse position up to this nh
+        for (int nh = 2; nh <= NHX; ++nh) nhs.push_back(nh);
+        if (T) {
+            for (int nh : {129, 255, 256, 257, 512, 1024, 2048}) nhs.push_back(nh);
+        } else {
+            for (int nh : {100, 127, 128, 129, 255, 256, 257, 512, 1024}) nhs.push_back(nh);
+        }
         const int BIG = T ? 100000 : 20000;
         // two passes: the long input is enumerated separately so that the heavy cases are consecutive case ordinals
         // (and therefore spread evenly over the shards)
@@ -812,14 +875,14 @@ int main(int argc, char** argv) {
                     const int block = fftlen - nh + 1;
                     std::vector<int> lens;
                     if (pass == 1) {
-                        if (nh > 16) lens = {BIG};
-                    } else if (nh <= 16) {
+                        if (nh > SWEEP) lens = {BIG};
+                    } else if (nh <= SWEEP) {
                         for (int l = 0; l <= 3 * block + 2; ++l) lens.push_back(l);
                     } else {
                         lens = {0, 1, block - 1, block, block + 1, 2 * block, 3 * block + 1};
                     }
                     std::vector<std::pair<std::string, int>> cl;
-                    if (nh <= 64) {
+                    if (nh <= NHX) {
                         for (int j = 0; j < nh; ++j) cl.push_back({"imp", j});
                     } else {
                         cl.push_back({"imp", 0});
@@ -832,8 +895,10 @@ int main(int argc, char** argv) {
                         for (int len : lens) {
                             // quick tier: the long input only with the end taps and the dense letters
                             if (!T && len == BIG && c.first == "imp" && c.second != 0 && c.second != nh - 1) continue;
+                            // thorough tier: the long input with every delta_j up to nh = 96, above that with 5 positions of j
+                            if (T && len == BIG && nh > 96 && c.first == "imp" && c.second > 1 && c.second < nh - 2 && c.second != nh / 2) continue;
                             if (!ctx.take("fir", P().kv("cplx", cplx).kv("nh", nh).kv("c", c.first).kv("j", c.second).kv("len", len))) continue;
-                            fir_case(ctx, cplx != 0, nh, c.first, c.second, len, block, fftlen);
+                            fir_case(ctx, cplx != 0, nh, c.first, c.second, len, block, fftlen, SWEEP);
                         }
                     }
                 }
@@ -841,42 +906,66 @@ int main(int argc, char** argv) {
         }
     }
 
-    // ---- FirFilter fed in several calls with changing frame lengths
-    for (int nh : {2, 3, 4, 5, 8, 16, 17, 31, 32, 33, 64, 100, 257})
-        for (int cplx = 0; cplx < 2; ++cplx) {
-            if (!ctx.take("firfilter.seq", P().kv("cplx", cplx).kv("nh", nh))) continue;
-            firseq_case(ctx, cplx != 0, nh);
+    // ---- big sizes (both tiers): one frame of 70000 samples, coefficient vectors of 4097 and 5000 taps
+    for (int cplx = 0; cplx < 2; ++cplx)
+        for (int nh : {33, 4097, 5000}) {
+            if (!ctx.take("fir.big", P().kv("cplx", cplx).kv("nh", nh).kv("c", "dense").kv("len", 70000))) continue;
+            const int fftlen = 1 << ilog2(2L * nh);
+            fir_case(ctx, cplx != 0, nh, "dense", 0, 70000, fftlen - nh + 1, fftlen, 16, true);
         }
+    for (int cplx = 0; cplx < 2; ++cplx) {
+        const int cv[][2] = {{70000, 9}, {9999, 5000}, {4097, 4097}};
+        for (auto& b : cv) {
+            if (!ctx.take("conv.big", P().kv("cplx", cplx).kv("nx", b[0]).kv("nh", b[1]))) continue;
+            conv_case(ctx, cplx != 0, b[0], b[1]);
+        }
+    }
+
+    // ---- FirFilter fed in several calls with changing frame lengths
+    {
+        std::vector<int> nhs = {2, 3, 4, 5, 8, 16, 17, 31, 32, 33, 64, 100, 257};
+        if (T) nhs = {2, 3, 4, 5, 6, 7, 8, 9, 15, 16, 17, 24, 31, 32, 33, 48, 63, 64, 65, 100, 128, 257};
+        for (int nh : nhs)
+            for (int cplx = 0; cplx < 2; ++cplx) {
+                if (!ctx.take("firfilter.seq", P().kv("cplx", cplx).kv("nh", nh).kv("calls", T ? 4 : 3))) continue;
+                firseq_case(ctx, cplx != 0, nh, T ? 4 : 3);
+            }
+    }
 
     // ---- FftFilter fed in several calls (pending samples, aligned and unaligned frames)
     {
         std::vector<int> nhs;
-        for (int nh = 2; nh <= 64; ++nh) nhs.push_back(nh);
-        for (int nh : {100, 127, 128, 129, 255, 256, 257, 512, 1024}) nhs.push_back(nh);
+        for (int nh = 2; nh <= (T ? 128 : 64); ++nh) nhs.push_back(nh);
+        if (T) {
+            for (int nh : {129, 255, 256, 257, 512, 1024, 2048}) nhs.push_back(nh);
+        } else {
+            for (int nh : {100, 127, 128, 129, 255, 256, 257, 512, 1024}) nhs.push_back(nh);
+        }
         for (int nh : nhs)
             for (int cplx = 0; cplx < 2; ++cplx) {
-                if (!ctx.take("fftfilter.seq", P().kv("cplx", cplx).kv("nh", nh))) continue;
+                if (!ctx.take("fftfilter.seq", P().kv("cplx", cplx).kv("nh", nh).kv("lens", T ? 9 : 6))) continue;
                 const int fftlen = 1 << ilog2(2L * nh);
-                fftseq_case(ctx, cplx != 0, nh, fftlen - nh + 1, fftlen, true);
+                fftseq_case(ctx, cplx != 0, nh, fftlen - nh + 1, fftlen, T);
             }
     }
 
     // ---- xcorr: all length pairs with all impulse pairs + dense letters
     {
-        const int N = T ? 48 : 16;
+        const int N = T ? 96 : 16;
         for (int n1 = 1; n1 <= N; ++n1)
             for (int n2 = 1; n2 <= N; ++n2) {
                 if (!ctx.take("xcorr.pairs", P().kv("n1", n1).kv("n2", n2))) continue;
                 xcorr_pair_case(ctx, n1, n2);
             }
-        const int big[][2] = {{5000, 1}, {1, 5000}, {4097, 4096}, {2500, 2500}, {64, 65}, {1000, 25}, {25, 1000}};
+        const int big[][2] = {{5000, 1}, {1, 5000}, {4097, 4096}, {2500, 2500}, {64, 65}, {1000, 25}, {25, 1000},
+                              {70000, 9}, {9, 70000}, {5000, 5000}, {65536, 2}, {65537, 1}};
         for (auto& b : big) {
             if (!ctx.take("xcorr.dense", P().kv("n1", b[0]).kv("n2", b[1]))) continue;
             xcorr_dense_case(ctx, b[0], b[1], true);
         }
         std::vector<int> an;
         for (int n = 1; n <= N; ++n) an.push_back(n);
-        for (int n : {64, 65, 1000, 2500, 4097}) an.push_back(n);
+        for (int n : {64, 65, 1000, 2500, 4097, 5000}) an.push_back(n);
         for (int n : an) {
             if (!ctx.take("xcorr.auto", P().kv("n", n))) continue;
             xcorr_auto_case(ctx, n);
@@ -886,12 +975,13 @@ int main(int argc, char** argv) {
     // ---- MAFilter(n) against the FIR with n taps 1/n
     {
         std::vector<int> ns;
-        for (int n = 1; n <= 64; ++n) ns.push_back(n);
-        ns.push_back(100);
+        for (int n = 1; n <= (T ? 128 : 64); ++n) ns.push_back(n);
+        if (!T) ns.push_back(100);
         ns.push_back(1000);
+        const int SW = T ? 32 : 16;
         for (int n : ns) {
             std::vector<int> lens;
-            if (n <= 16) {
+            if (n <= SW) {
                 for (int l = 0; l <= 3 * n + 2; ++l) lens.push_back(l);
             } else {
                 lens = {0, 1, n - 1, n, n + 1, 2 * n, 3 * n + 1, 5 * n + 3};
@@ -900,6 +990,11 @@ int main(int argc, char** argv) {
                 if (!ctx.take("mafilter", P().kv("n", n).kv("len", len))) continue;
                 ma_case(ctx, n, len);
             }
+        }
+        // big sizes (both tiers): 70000 samples through one filter object
+        for (int n : {7, 100, 1000, 4097}) {
+            if (!ctx.take("mafilter.big", P().kv("n", n).kv("len", 70000))) continue;
+            ma_case(ctx, n, 70000, true);
         }
     }
     return ctx.finish();
